@@ -17,7 +17,8 @@ ASSUMPTIONS = ["elements are valid Option/CommandOption/Argument/CommandName obj
 POOL = ["foo", "f", "bar", "b", "cmd", "c", "arg1", "arg2", "multi", "yy", "z", "baz", "other", "arg3"]
 REQ, OPT, MULTI = 1, 2, 4
 OPTS = [["foo", "f"], ["bar", "b"], ["foo", None], ["baz", "f"]]
-COPTS = [["foo", "f", [], []], ["cmd", "c", ["bar"], ["b"]], ["other", None, ["foo", "yy"], []], ["zz", "z", [], ["f"]]]
+COPTS = [["foo", "f", [], []], ["cmd", "c", ["bar"], ["b"]], ["other", None, ["foo", "yy"], []], ["zz", "z", [], ["f"]],
+         ["nos", None, [], ["b"]]]        # no short name of its own, but a one-letter alias (seeded change C06-h)
 ARGS = [["arg1", REQ], ["arg2", OPT], ["arg1", OPT], ["multi", MULTI], ["arg3", REQ | MULTI], ["arg3", REQ]]
 CNAMES = [["server", ["srv"]], ["add", []]]
 
